@@ -16,6 +16,7 @@ import (
 	"sort"
 	"strconv"
 	"strings"
+	"sync"
 	"time"
 )
 
@@ -140,6 +141,39 @@ func (s *vfScriptSource) Seed(int64) {}
 
 // vfRand returns a generator whose Intn results are arbitrary (the executor) or scripted (replay).
 func vfRand() *rand.Rand { return rand.New(&vfScriptSource{}) }
+
+// vfConcurrently runs f from several goroutines at once (native replay only; the executor is
+// single-threaded and decides concurrency claims by the write footprint). Programs that call the
+// harness's own stateful operators are skipped: their shared counters would race by themselves.
+func vfConcurrently(f func(g int), e *Expr, src string) {
+	if strings.Contains(src, "(p ") || strings.Contains(src, "(q ") || strings.Contains(src, "(z)") || strings.Contains(src, "(y)") {
+		return
+	}
+	stop := make(chan struct{})
+	if e.EventChan != nil {
+		go func() {
+			for {
+				select {
+				case <-e.EventChan:
+				case <-stop:
+					return
+				}
+			}
+		}()
+	}
+	var wg sync.WaitGroup
+	for g := 0; g < 4; g++ {
+		wg.Add(1)
+		go func(g int) {
+			defer wg.Done()
+			for k := 0; k < 6; k++ {
+				f(g)
+			}
+		}(g)
+	}
+	wg.Wait()
+	close(stop)
+}
 
 // vfOpaqueDate is an arbitrary text; natively a concrete one that matches layout.
 func vfOpaqueDate(name, layout string) string {
